@@ -16,6 +16,11 @@ oracles written from the property statement:
 * every operator of `prepare_operators()` over histories (the `random.choices` inside
   `modify_random_controllers` is replaced by a recorded choice list), increase/decrease inverse,
   direct `Controller.modify_controller` (circular and clamped);
+* operators applied to the members of a *population* of configurations while the expression is left in
+  another state (interleaved with configure / select / modify_controller / iteration through several
+  public entry points): the result is the documented neighbour of the configuration GIVEN, the same
+  call gives the same result whatever happened in between, the opposite move (Increase/Decrease, Pair
+  NE/SW, NW/SE) gives back the configuration given, catalogs stay synchronised, iteration stays complete;
 * `segmentation_catalogs` / `generic_alt_specific_catalogs` against their documented closed form.
 """
 
@@ -39,9 +44,13 @@ MANIFEST = dict(
     'each configuration once; after configure_catalogs every catalog at any depth shows the member named by its controller and the delegated formula is '
     'syntactically the hand-written one, catalog free, with the same value (select_sync / select_equals_handwritten); every operator is closed for every step '
     'in Z, every state and every random outcome, over all histories (closure / closure_prepared / history_closed / modify_controller_closed); increase then '
-    'decrease (and conversely) is the identity (inc_dec_inverse / dec_inc_inverse). Tie: correspondence on real Catalog/Controller/Configuration objects, '
-    'engine evaluation of configured vs hand-written formulas, decoded signatures, operator histories with recorded random choices; spaces up to the cap '
-    'enumerated completely.',
+    'decrease (and conversely) is the identity (inc_dec_inverse / dec_inc_inverse), so is a pair move followed by the opposite pair move (pair_inverse, '
+    'prepared_pairs_distinct); what an operator returns is a function of the configuration it is given, not of the state the controllers were left in '
+    '(operator_state_independent), controllers it does not name keep their alternative (operator_moves_only_named), and over any interleaving of operator '
+    'calls on a population with configure/select/modify/iterate operations the members stay valid and equal those produced by the operator calls alone '
+    '(population_history). Tie: correspondence on real Catalog/Controller/Configuration objects, '
+    'engine evaluation of configured vs hand-written formulas, decoded signatures, operator histories with recorded random choices, population '
+    'histories (operator applied to a configuration that is not the one the expression shows); spaces up to the cap enumerated completely.',
     design='DESIGN.md §5 C16',
     technique='Lean 4 theorems over an executable state-machine model + differential correspondence with the real catalog machinery and the real engine',
     note='Three input-validation defects are listed as known findings (FC16a/b/c: same-named controllers merged, reserved separators and duplicate '
@@ -59,7 +68,8 @@ ASSUMPTIONS = [
 ]
 RULE = (
     'expressions with 1-4 controllers of size 1-5 (own and shared controllers, nested catalogs, adversarial names); every configuration of spaces '
-    'below the cap is configured and evaluated; operator histories of length 1-20; non-trivial = at least two controllers, or a shared controller, or a '
+    'below the cap is configured and evaluated; operator histories of length 1-20; population histories (2-4 members, 4-18 events: operator calls, '
+    'repeated calls, opposite moves, configure/select/modify/iterate in between); non-trivial = at least two controllers, or a shared controller, or a '
     'nested catalog'
 )
 
@@ -640,7 +650,7 @@ def _check_case(ctx, res, case, n_configs, n_hist, model, phase):
     # ---- operators over a population, interleaved with other operations on the expression
     pop_reqs = []
     phase[0] = 'population histories'
-    for _ in range(n_hist):
+    for _ in range(min(n_hist, 3)):
         members, events = gen_population(rng, ctrls, rng.randint(4, 18))
         lean_events, pobs, final = run_population(res, case, members, events)
         pop_reqs.append(({'op': 'population', 'expr': lexpr, 'members': members, 'events': lean_events}, pobs, final, events))
